@@ -35,6 +35,10 @@ Commands:
   opa <sc> many <ins ,> <outs , | -> <names> <signals ;> <kspec>
                                            the argument forms of `Track.operate` (`-`: third argument omitted)
                                            → ok <weight list after the call | none> <returned list | none> <names> <signals ;> | err:<kind>
+  opx <sc> <af_in> <kernel name> <af_out | -> <names> <signals ;>
+                                           the algebraic form `track.operate("af_out = af_in ! kname")` (`-`: no left-hand side, the
+                                           values are returned); both names must be signals of the track, `af_out` not t / timestamp / idx
+                                           → ok none <returned list | none> <names> <signals ;> | err:<kind>
   seq <sc> <dim> <names> <signals ;> <kspec> → ok <names> <signals ;> <globals> | err:<kind> <globals>
   seqn <sc> <n> <dim> <names> <signals ;> <kspec>
                                            `filter_seq` called n times on the same track with the same kernel object
@@ -250,6 +254,19 @@ def handleSc (sc : Sc α) (cmd : String) (args : List String) : String :=
         | .error e => showErr e
       | _, _ => "bad-request"
     | _, _ => "bad-request"
+  | "opx", [afIn, kname, afOut, names, sigs] =>
+    match track? sc names sigs with
+    | some t =>
+      if (getSig t afIn).isNone || (getSig t kname).isNone || afOut == "t" || afOut == "timestamp" || afOut == "idx" then "bad-request"
+      else
+        match operateAlgebraic t (if afOut == "-" then none else some afOut) afIn kname with
+        | .ok (ret, t') =>
+          let r := match ret with
+            | some out => showSignal sc out
+            | none => "none"
+          s!"ok none {r} {showTrack sc t'}"
+        | .error e => showErr e
+    | none => "bad-request"
   | "seq", dim :: names :: sigs :: ks =>
     match seqArg? sc ks, track? sc names sigs, dim? dim with
     | some k, some t, some d => showCall sc (filterSeqCall Globals.initial t k d)
